@@ -22,11 +22,11 @@ structure Ep where
   port : Nat := 0
   deriving DecidableEq, Repr, Inhabited
 
-def Ep.isV4 (e : Ep) : Bool := !(e.addr.contains ':')
+def Ep.isV4 (e : Ep) : Bool := !(e.addr.toList.contains ':')
 def Ep.isDefault (e : Ep) : Bool := e.addr == "0.0.0.0" && e.port == 0
 def Ep.toString (e : Ep) : String :=
   if e.isV4 then e.addr ++ ":" ++ Nat.repr e.port else "[" ++ e.addr ++ "]:" ++ Nat.repr e.port
-def addrIsV4 (a : String) : Bool := !(a.contains ':')
+def addrIsV4 (a : String) : Bool := !(a.toList.contains ':')
 
 /-- `a.b.c.d:port` or `[v6]:port` -/
 def Ep.parse (s : String) : Option Ep :=
